@@ -44,7 +44,7 @@ MANIFEST = {
     "note": "trusted: tile geometry functions; the multiprocessing and file-write models",
     "technique": "deterministic simulation: seeded schedule search of parallel / concurrent TOAST sampling; pixel-exact oracle from an analytic sampler and trusted tile geometry",
 }
-BUDGET = {"quick": (320, 75), "thorough": (15000, 1500)}
+BUDGET = {"quick": (320, 75), "thorough": (25000, 1500)}
 REQUIRED_PROBES = {"quick": ["mode_update", "mode_clobber", "prior_state", "depth0"],
                    "thorough": ["mode_update", "mode_clobber", "prior_state", "depth0", "concurrent_samplers", "lock_contended", "format_override", "via_builder"]}
 CHUNK = 4
@@ -168,7 +168,7 @@ def run_one(ch, env):
     if depth == 3 and ch.draw(4, kind="depth3_rare") != 0:
         depth = 1
     # now and then a filtered layer with several hundred tiles (depth 5): size-dependent paths of the leaf visit
-    big = ch.draw(90, kind="large_sampling") == 89
+    big = ch.draw(300 if common.thorough() else 90, kind="large_sampling") == 0
     if big:
         update, depth = True, 5
     coordsys = (ToastCoordinateSystem.ASTRONOMICAL, ToastCoordinateSystem.PLANETARY)[ch.draw(2, kind="coordsys")]
